@@ -70,7 +70,7 @@ reg("C11",
 reg("C16",
     "explicit-state breadth-first search over structure-aware mutations of the seed corpus (every derive_ex item of the test-suite and documentation + generator output) with a seen-set on canonical token text; every reached state expanded twice by the real expander",
     "Every state (entry point, argument list, item) reached within the depth bound is expanded twice in-process under catch_unwind: no panic, the output parses as Rust items, every macro item is a compile_error! with a non-empty message, and both expansions are textually identical (fresh RandomState per expansion exposes hash-order dependence). States, transitions and per-depth counts are reported; a state cap sets exhaustive=false if hit.",
-    "Bound: depth 1 (quick, ~45k states) / depth 2 (thorough, ~6M states) over delete/duplicate/swap/replace of attributes, arguments (one nesting level), fields, variants, generic parameters; where/generics deletion; renaming to raw / generator-used identifiers; entry switch; unsupported item kinds. Each state runs under a watchdog (60 s): a hang is reported as expansion-does-not-terminate with a replay file.",
+    "Bound: depth 1 (quick, ~45k states) / depth 2 (thorough, ~6M states) over delete/duplicate/swap/replace of attributes, arguments (one nesting level), fields, variants, generic parameters; where/generics deletion; renaming to raw / generator-used / non-ASCII identifiers; odd trait paths on impl items (`Add<>`, lifetime / const arguments, non-ASCII names); a 15-entry argument pool incl. unknown and non-ASCII trait names; entry switch; unsupported item kinds. Each state runs under a watchdog (60 s): a hang is reported as expansion-does-not-terminate with a replay file.",
     "DESIGN.md 5/C16")
 reg("C19",
     "exhaustive enumeration, per seed item, of dump placements (shared, each single trait, first+last, all-but-first, on impl items, on one of two derive_ex lists) x entry points on the real expander, comparing the dumped text token-for-token with the code generated without dump",
@@ -79,20 +79,20 @@ reg("C19",
     "DESIGN.md 5/C19")
 
 reg("C17",
-    "bounded exhaustive enumeration of containers x 1..3 fields x field types {Eq, PartialEq-only, generic} x (eq, ord) attribute pairs x bound modes x PartialEq hand-written/co-derived x entry points, every case compiled metadata-only by real rustc against the real proc-macro; accept/reject compared with the reference",
+    "bounded exhaustive enumeration of containers x 1..3 fields x field types {Eq, PartialEq-only, generic} x (eq, ord) attribute pairs x bound modes x PartialEq hand-written/co-derived (also with a co-derived Hash whose fields are all #[hash(ignore)]) x entry points, every case compiled metadata-only by real rustc against the real proc-macro; accept/reject compared with the reference",
     "Each terminal state is a complete program compiled by real rustc; the reference says reject iff some field taking part in equality (not ignored, not `by`; precedence eq before ord) has a non-Eq effective component; a reject-predicted case that compiles, or an accept-predicted case with a diagnostic, is a violation. The iterative batch protocol gives every case its own verdict.",
-    "Bound: quick 1-2 fields (7890 cases), thorough up to 3 fields; key expressions `$ as u16` / `$.to_bits()` (Eq) and `$ as f32` / `$ * 2.0` (non-Eq).",
+    "Bound: quick 1-2 fields (8236 cases), thorough up to 3 fields; key expressions `$ as u16` / `$.to_bits()` (Eq) and `$ as f32` / `$ * 2.0` (non-Eq).",
     "DESIGN.md 5/C17")
 reg("C18",
-    "exhaustive enumeration of 11 single-field struct definitions x tuple/named x trait lists x entry points, compiled with the real proc-macro and executed (address identity, Target TypeId, write-through in both directions); every other arity and enums checked for rejection on the in-process expander",
+    "exhaustive enumeration of 13 single-field struct definitions x tuple/named/raw-named field x 4 trait-list flavours x entry points, compiled with the real proc-macro and executed (address identity, Target TypeId, write-through in both directions); every other arity and enums checked for rejection on the in-process expander",
     "Each case is compiled by real rustc against the repository's proc-macro and executed; failing to compile is a violation. Rejection of 0-, 2-, 3-, 4-field structs and enums is checked for each of Deref, DerefMut alone and both orders through both entry points.",
-    "Bound: 132 executed cases + 112 rejection cases; field types u8, String, Box<[u8]>, Vec<T>, T, &'a T, Box<T> (T: ?Sized), [u8; N], (T, U); generics with inline bounds, defaults, const parameters and where-clauses.",
+    "Bound: 282 executed cases + 112 rejection cases; field types u8, String, Box<[u8]>, Vec<T>, T, &'a T, Box<T> (T: ?Sized), [u8; N], (T, U); generics with inline bounds, defaults, const parameters (also declared before type parameters) and where-clauses; list flavours Deref / Deref, DerefMut / DerefMut, Deref / Deref, DerefMut, bound(T: Copy); field named r#type.",
     "DESIGN.md 5/C18")
 
 reg("C20",
     "bounded exhaustive enumeration of trait lists x shapes (incl. empty / single-variant enums) x generics options (type/const/lifetime parameters, inline bounds, defaults, where-clauses with Self incl. nested, hostile names H and 'a, ?Sized tail) x field types over the parameters x attribute flavours x entry points, plus every case of the C01/C06 comparison generators; each case the in-process expander accepts is compiled metadata-only by real rustc against the real proc-macro",
-    "Cases whose in-process expansion contains a compile_error! are set aside (that is derive_ex's own message); every other case is compiled by real rustc with warnings on: any error attributed to the case, and any warning whose span lies in derive_ex's output, is a violation. User-written pieces are well-typed by construction. Exhaustive within the bound.",
-    "Bound: quick ~10.5k cases (18 lists x 10 shapes x 15 generics options with the field-type variation on <T>; 6 comparison lists x 5 shapes x 8 attribute flavours x positions; 18 fixed Debug/Default flavours; C01/C06 quick generators); thorough adds all field-type variations and both entry points everywhere. Lints: rustc default warn level only (no clippy).",
+    "Cases whose in-process expansion contains a compile_error! are set aside (that is derive_ex's own message); every other case is compiled by real rustc with warnings on: any error attributed to the case is a violation; for the check's own grammar so is every warning attributed to the case (wherever its span lies) unless the twin deriving the same traits with the standard derive draws the same lint; for the borrowed C01/C06 programs warnings count when their span lies in derive_ex's output. User-written pieces are well-typed and warning-free by construction. One recorded known finding (ambiguous_wide_pointer_comparisons on a derived PartialEq over a raw pointer to a ?Sized parameter) is printed as KNOWN-FINDING. Exhaustive within the bound.",
+    "Bound: quick ~12.9k cases (18 lists x 10 shapes x 15 generics options with the field-type variation on <T>; 6 comparison lists x 5 shapes x 8 attribute flavours x positions; 23 fixed flavours (Debug/Default bounds, by on unsized tails, variant-level stopping bounds); C01/C06 quick generators); thorough adds all field-type variations and both entry points everywhere. Lints: rustc default warn level only (no clippy).",
     "DESIGN.md 5/C20")
 
 reg("C13",
